@@ -415,7 +415,13 @@ func VH20f_run() {
 	s.inbox = [][]byte{in1, in2}
 	rt := verif.Duration("recv-timeout")
 	verif.Assume(verif.And(rt >= 0, rt <= time.Hour))
-	a := &App{sock: s, recvTimeout: Duration(rt), sendTimeout: Duration(-1), sendInterval: Duration(-1), sendDelay: Duration(-1), count: count,
+	// with an interval (solver variable) the payload is sent count times, otherwise once
+	interval := time.Duration(-1)
+	if verif.Choice("with-interval", 2) == 1 {
+		interval = verif.Duration("interval")
+		verif.Assume(verif.And(interval >= 0, interval <= time.Hour))
+	}
+	a := &App{sock: s, recvTimeout: Duration(rt), sendTimeout: Duration(-1), sendInterval: Duration(interval), sendDelay: Duration(-1), count: count,
 		sendData: data, printFormat: "raw", options: &optopia.Options{}, stdOut: w,
 		bindAddr: []string{"tcp://127.0.0.1:1"}, dialAddr: []string{"ipc:///tmp/x", "inproc://y"}}
 	if names[pi] == "sub" {
@@ -440,8 +446,20 @@ func VH20f_run() {
 	case "pair", "bus", "star", "req", "surveyor":
 		verif.Assert(err == nil, lab+"/run-error")
 		if withData || names[pi] == "req" || names[pi] == "surveyor" {
-			// no interval: one transmission, then everything that arrives is printed
-			verif.Assert(sends == 1, lab+"/sendrecv-without-interval-sends-once")
+			if interval < 0 {
+				// no interval: one transmission, then everything that arrives is printed
+				verif.Assert(sends == 1, lab+"/sendrecv-without-interval-sends-once")
+			} else {
+				// one transmission per round, count rounds, at most one arrival printed per round
+				verif.Assert(sends == count, lab+"/not-sent-the-requested-number-of-times")
+				both = both[:0]
+				if count >= 1 {
+					both = append(both, in1...)
+				}
+				if count >= 2 {
+					both = append(both, in2...)
+				}
+			}
 			verif.Assert(len(s.order) > 0 && s.order[0] == 's', lab+"/received-before-sending")
 		} else {
 			verif.Assert(sends == 0, lab+"/sent-without-data")
@@ -463,7 +481,13 @@ func VH20f_run() {
 	if err == nil {
 		verif.Assert(s.listens == 1 && s.dials == 2, lab+"/addresses-not-bound-and-dialled-once-each")
 		d, ok := s.opts[mangos.OptionRecvDeadline].(time.Duration)
-		verif.Assert(ok && d == rt, lab+"/receive-timeout-not-applied")
+		sendrecv := sends > 0 && (names[pi] == "pair" || names[pi] == "bus" || names[pi] == "star" || names[pi] == "req" || names[pi] == "surveyor")
+		if interval >= 0 && sendrecv {
+			// the wait per round is bounded by the smaller of receive timeout and interval
+			verif.Assert(ok && (d == rt || d == interval) && d <= rt, lab+"/receive-timeout-not-applied")
+		} else {
+			verif.Assert(ok && d == rt, lab+"/receive-timeout-not-applied")
+		}
 		_, hasSend := s.opts[mangos.OptionSendDeadline]
 		verif.Assert(!hasSend, lab+"/send-timeout-applied-although-not-given")
 	}
